@@ -324,6 +324,7 @@ class C14(Check):
         self.P = pydl
         for n in ('smooth', 'median', 'uniq', 'rebin'):
             self.reach.add(getattr(pydl, n))
+            self.brd.attach(self.rec, pydl, n, label='pydl.' + n, every=6, own=True)
             self.rec.wrap(pydl, n, label='pydl.' + n)
         self._fragile = None
         self._maxerr = {}
